@@ -266,6 +266,20 @@ func VerifL2Schedule() {
 	if l.anyTaskError {
 		verifAssert(res != nil, "C08.failure-makes-the-job-errored")
 	}
+	if mode == 1 {
+		// an external cancel that cut a running task short is reported as a cancel (prunner derives the
+		// job's Canceled flag from exactly this result), also when another task had failed before
+		cutShort := false
+		for _, st := range l.stages {
+			if st.canceled {
+				cutShort = true
+			}
+		}
+		if cutShort {
+			verifReach("cancel-cut-a-task-short")
+			verifAssert(res != nil && errors.Is(res, context.Canceled), "C04.cancel-that-stopped-a-task-is-reported-as-canceled")
+		}
+	}
 	if mode == 0 {
 		// undisturbed: every task without a failed ancestor runs exactly once (continue mode of C08;
 		// with all-success outcomes: every acyclic graph runs to completion, C02)
